@@ -66,6 +66,7 @@ type Row struct {
 	Host   string `json:"host"`
 	TLS    string `json:"tls"`
 	Draw   int    `json:"draw"`
+	Prior  string `json:"prior"` // cold | warm: a genuine server was accepted through the same resolver before
 }
 
 // ServerObs is what one TLS server saw.
@@ -111,6 +112,7 @@ type pki struct {
 	bundleCA, bundleInt, bundleIntExpired, otherCA, client keyCert
 	serial                                                 int64
 	mu                                                     sync.Mutex
+	genuineOf                                              map[string]tls.Certificate // lookalike leaf serial -> the genuine chain it copies
 }
 
 func (p *pki) nextSerial() *big.Int {
@@ -122,7 +124,9 @@ func (p *pki) mint(tpl *x509.Certificate, parent *keyCert) (keyCert, error) {
 	if err != nil {
 		return keyCert{}, err
 	}
-	tpl.SerialNumber = p.nextSerial()
+	if tpl.SerialNumber == nil {
+		tpl.SerialNumber = p.nextSerial()
+	}
 	signer, signKey := tpl, key
 	if parent != nil {
 		signer, signKey = parent.cert, parent.key
@@ -151,7 +155,7 @@ func caTemplate(cn string) *x509.Certificate {
 }
 
 func newPKI() (*pki, error) {
-	p := &pki{serial: 1000}
+	p := &pki{serial: 1000, genuineOf: map[string]tls.Certificate{}}
 	var err error
 	if p.bundleCA, err = p.mint(caTemplate("verif bundle CA"), nil); err != nil {
 		return nil, err
@@ -230,6 +234,9 @@ func (p *pki) serverCert(c Chain, hostKind string, sniNames []string) (tls.Certi
 	default:
 		return tls.Certificate{}, fmt.Errorf("san %q", c.SAN)
 	}
+	if c.Signer == "lookalike" {
+		return p.lookalike(tpl, c.Extra)
+	}
 	var parent *keyCert
 	var extra []byte
 	switch c.Signer {
@@ -261,6 +268,36 @@ func (p *pki) serverCert(c Chain, hostKind string, sniNames []string) (tls.Certi
 // resolution of one second)
 func shiftBoundary(now time.Time) time.Time { return now.Truncate(time.Second).Add(4 * time.Second) }
 
+// lookalike: a genuine leaf is minted from the template (and thrown away, or served during the warm-up by the caller
+// through lastGenuine); the returned chain copies its subject, issuer name, serial number, names and validity, with a
+// key of its own, issued by a private CA that carries the bundle CA's name.
+func (p *pki) lookalike(tpl *x509.Certificate, extra bool) (tls.Certificate, error) {
+	gen := *tpl
+	genuine, err := p.mint(&gen, &p.bundleCA)
+	if err != nil {
+		return tls.Certificate{}, err
+	}
+	fakeCA, err := p.mint(&x509.Certificate{Subject: p.bundleCA.cert.Subject, NotBefore: p.bundleCA.cert.NotBefore, NotAfter: p.bundleCA.cert.NotAfter,
+		IsCA: true, BasicConstraintsValid: true, KeyUsage: p.bundleCA.cert.KeyUsage, SerialNumber: p.bundleCA.cert.SerialNumber}, nil)
+	if err != nil {
+		return tls.Certificate{}, err
+	}
+	cp := *tpl
+	cp.SerialNumber = genuine.cert.SerialNumber
+	leaf, err := p.mint(&cp, &fakeCA)
+	if err != nil {
+		return tls.Certificate{}, err
+	}
+	out := tls.Certificate{Certificate: [][]byte{leaf.der}, PrivateKey: leaf.key, Leaf: leaf.cert}
+	if extra {
+		out.Certificate = append(out.Certificate, fakeCA.der)
+	}
+	p.mu.Lock()
+	p.genuineOf[leaf.cert.SerialNumber.String()] = tls.Certificate{Certificate: [][]byte{genuine.der}, PrivateKey: genuine.key, Leaf: genuine.cert}
+	p.mu.Unlock()
+	return out, nil
+}
+
 var goodChain = Chain{Signer: "direct", Extra: false, SAN: "bundleHost", Validity: "current"}
 
 // ------------------------------------------------------------------------------------ servers
@@ -270,6 +307,13 @@ type observer struct {
 	obs       ServerObs
 	clientDER []byte
 	wg        sync.WaitGroup
+	swap      func(tls.Certificate) // replaces the certificate the server presents from now on
+}
+
+func (o *observer) reset() {
+	o.mu.Lock()
+	o.obs = ServerObs{}
+	o.mu.Unlock()
 }
 
 func (o *observer) hello(sni string) {
@@ -303,17 +347,28 @@ func (o *observer) snapshot() ServerObs {
 }
 
 func serverTLSConfig(cert tls.Certificate, ver string, o *observer) *tls.Config {
-	cfg := &tls.Config{
-		Certificates: []tls.Certificate{cert},
-		ClientAuth:   tls.RequestClientCert,
+	mk := func(cert tls.Certificate) *tls.Config {
+		cfg := &tls.Config{
+			Certificates: []tls.Certificate{cert},
+			ClientAuth:   tls.RequestClientCert,
+		}
+		if ver == "1.2" {
+			cfg.MinVersion, cfg.MaxVersion = tls.VersionTLS12, tls.VersionTLS12
+		} else {
+			cfg.MinVersion, cfg.MaxVersion = tls.VersionTLS13, tls.VersionTLS13
+		}
+		return cfg
 	}
-	if ver == "1.2" {
-		cfg.MinVersion, cfg.MaxVersion = tls.VersionTLS12, tls.VersionTLS12
-	} else {
-		cfg.MinVersion, cfg.MaxVersion = tls.VersionTLS13, tls.VersionTLS13
+	cfg := mk(cert)
+	o.swap = func(c tls.Certificate) {
+		o.mu.Lock()
+		cfg = mk(c)
+		o.mu.Unlock()
 	}
 	outer := &tls.Config{GetConfigForClient: func(h *tls.ClientHelloInfo) (*tls.Config, error) {
 		o.hello(h.ServerName)
+		o.mu.Lock()
+		defer o.mu.Unlock()
 		return cfg, nil
 	}}
 	return outer
@@ -565,7 +620,21 @@ func runRow(p *pki, row Row) (res Result) {
 	} else {
 		res.ChainLen = len(nodeCert.Certificate)
 	}
-	nd, err := startNode(nodeCert, row.TLS, p.client.der)
+	// warm rows: the node first presents a genuine chain (for a lookalike: the very chain it copies), is accepted once
+	// through every endpoint of the resolver, and only then presents the row's chain
+	warm := row.Prior == "warm" && row.Target != "metadata"
+	firstCert := nodeCert
+	if warm {
+		if nodeChain.Signer == "lookalike" {
+			p.mu.Lock()
+			firstCert = p.genuineOf[nodeCert.Leaf.SerialNumber.String()]
+			p.mu.Unlock()
+		} else if firstCert, err = p.serverCert(goodChain, row.Host, sniNames); err != nil {
+			res.Infra = "mint: " + err.Error()
+			return
+		}
+	}
+	nd, err := startNode(firstCert, row.TLS, p.client.der)
 	if err != nil {
 		res.Infra = "node: " + err.Error()
 		return
@@ -653,12 +722,42 @@ func runRow(p *pki, row Row) (res Result) {
 		_ = c.Close()
 	}
 
+	warmUp := func(eps []proxycore.Endpoint) bool {
+		if !warm {
+			return true
+		}
+		for _, ep := range eps {
+			cl, err := proxycore.ConnectClient(ctx, ep, proxycore.ClientConnConfig{})
+			if err != nil {
+				res.Infra = "warm-up: the genuine server was not accepted: " + err.Error()
+				return false
+			}
+			_ = cl.Close()
+		}
+		// the server records a handshake when its side completes (with TLS 1.3 after the client's returned): wait for
+		// every warm-up handshake to be on record before the observations are reset
+		deadline := time.Now().Add(3 * time.Second)
+		for time.Now().Before(deadline) && nd.o.snapshot().Handshakes < len(eps) {
+			time.Sleep(2 * time.Millisecond)
+		}
+		if nd.o.snapshot().Handshakes < len(eps) {
+			res.Infra = "warm-up: the server did not record the handshakes"
+			return false
+		}
+		nd.o.wg.Wait()
+		nd.o.swap(nodeCert)
+		nd.o.reset()
+		return true
+	}
 	switch row.Target {
 	case "metadata":
 		// nothing else: the row's verdict is Resolve's
 	case "contact":
 		if rerr != nil {
 			res.Infra = "metadata service with a valid chain was not accepted: " + rerr.Error()
+		}
+		if rerr == nil && !warmUp(eps) {
+			break
 		}
 		if !crossBoundary() {
 			break
@@ -684,7 +783,7 @@ func runRow(p *pki, row Row) (res Result) {
 			break
 		}
 		res.Endpoints = []string{ep.Key()}
-		if !crossBoundary() {
+		if !warmUp([]proxycore.Endpoint{ep}) || !crossBoundary() {
 			break
 		}
 		connect(ep, row.Draw%2 == 0) // odd draws: raw proxycore.Connect, even draws: ConnectClient
